@@ -356,6 +356,43 @@ pub fn check(mut ctx: Ctx, replay: Option<J>) -> ! {
       calls += res["p"].as_array().map(|a| a.len()).unwrap_or(0) as u64 + res["ev"].as_array().map(|a| a.iter().filter(|e| *e != "none").count()).unwrap_or(0) as u64;
     }
   }
+  // the same documents against a build WITHOUT arithmetic overflow checks (thorough tier): the property holds
+  // "whether or not the build checks arithmetic overflow"
+  let mut release_recs: Vec<J> = vec![];
+  if replay.is_none() && !quick {
+    let harness_dir = ctx.verif.join("harness");
+    let st = std::process::Command::new("cargo").args(["build", "--release", "--offline"]).current_dir(&harness_dir).stdout(std::process::Stdio::null()).stderr(std::process::Stdio::null()).status();
+    let exe = harness_dir.join("target/release/dmntk-verif");
+    if !st.map(|s| s.success()).unwrap_or(false) || !exe.exists() {
+      tool_error("the release build of the harness failed");
+    }
+    std::env::set_var("VERIF_CHILD_EXE", &exe);
+    // every TLC document, the corpus, and a fifth of the mutated ones
+    let subset: Vec<usize> = (0..recs.len()).filter(|i| recs[*i]["src"] != "mut" || i % 5 == 0).collect();
+    let rin: Vec<J> = subset.iter().map(|i| json!({"text": recs[*i]["text"]})).collect();
+    let rres = run_in_children("c05", &tlc.work_dir, &rin, 14, Duration::from_secs(20));
+    std::env::remove_var("VERIF_CHILD_EXE");
+    for (k, i) in subset.iter().enumerate() {
+      let res = &rres[k];
+      let mut r = json!({"src": "release", "fam": recs[*i]["fam"], "text": recs[*i]["text"], "iter": recs[*i]["iter"]});
+      if let Some(d) = res["death"].as_str() {
+        r["death"] = json!(d);
+        r["p"] = json!([]);
+        r["ev"] = json!([]);
+        r["panics"] = json!([]);
+      } else {
+        r["death"] = json!("");
+        r["p"] = res["p"].clone();
+        r["ev"] = res["ev"].clone();
+        r["panics"] = res["panics"].clone();
+      }
+      release_recs.push(r);
+    }
+    ctx.cov("documents_release_build", json!(release_recs.len()));
+  }
+  let n_debug = recs.len();
+  recs.extend(release_recs);
+  let _ = n_debug;
   if replay.is_none() {
     // self-test: a panic, a death and a wrong fault script must be rejected
     let mut a = recs[0].clone();
@@ -402,6 +439,9 @@ pub fn check(mut ctx: Ctx, replay: Option<J>) -> ! {
     let mut sigs: Vec<String> = r["panics"].as_array().map(|a| a.iter().map(|p| normalise_panic(p["msg"].as_str().unwrap_or(""))).collect()).unwrap_or_default();
     sigs.sort();
     sigs.dedup();
+    if r["src"] == "release" {
+      sigs = sigs.into_iter().map(|x| format!("release-build:{}", x)).collect();
+    }
     if sigs.is_empty() {
       // the shape of the document: its first tokens, digits blurred
       let shape: String = text.split_whitespace().take(7).collect::<Vec<_>>().join("").chars().take(24).map(|c| if c.is_ascii_digit() { '#' } else { c }).collect();
@@ -433,7 +473,7 @@ pub fn check(mut ctx: Ctx, replay: Option<J>) -> ! {
   }
   ctx.cov("rule", json!("one document = one text; every document goes through 8 parser entry points x 3 parsing scopes and the evaluator for every tree (evaluations = calls made); documents: TLC-enumerated (tree pool, every single fault at every position over a 53-token alphabet, escape sequences, 73 built-ins x extreme argument tuples, nesting to 200), the repository's test strings and seeded fault scripts on them (re-derived by TLC from Faults.tla), arbitrary Unicode"));
   ctx.sample(json!({"text": recs[recs.len() / 3]["text"], "fam": recs[recs.len() / 3]["fam"]}));
-  ctx.assume("the harness build has overflow checks and debug assertions on (profile dev); the thorough tier also runs a release build of the child");
+  ctx.assume("the harness build has overflow checks and debug assertions on (profile dev); the thorough tier runs the TLC documents, the corpus and a fifth of the mutated documents also in a release build of the child (no overflow checks)");
   ctx.assume("a timeout on a document containing iteration, ranges, powers, regex functions or the big operands is accepted as legitimate long-running work");
   ctx.finish()
 }
